@@ -110,6 +110,9 @@ const R_ALL: &[(&str, Fm)] = &[
     ("example.com##.rma:remove-attr(href)", Fm::Std),
     ("example.com##div:has-text(Sponsored)", Fm::Std),
     ("example.com##.up:upward(2)", Fm::Std),
+    // a :style() action whose declaration is the one a plain hide rule stands for
+    ("example.com##.styled:style(display: none !important)", Fm::Std),
+    ("sub.example.com#@#.styled:style(display: none !important)", Fm::Std),
     ("example.com##+js(sl0)", Fm::Std),
     ("example.com##+js(sl1, alpha)", Fm::Std),
     ("example.com,ads.net##+js(sl2, alpha, \"be, ta\")", Fm::Std),
